@@ -511,6 +511,52 @@ def expr_str(n, depth=0):
     return k + "(" + ", ".join(expr_str(x) for x in c) + ")"
 
 
+def single_assign(f):
+    """locals of f assigned exactly once, at their declaration (never re-assigned, incremented or address-taken) -> init node"""
+    if "_single" in f:
+        return f["_single"]
+    decl, multi = {}, set()
+    for n in fn_nodes(f):
+        if n["k"] == "VarDecl" and n.get("c") and n.get("var"):
+            decl[n["var"]] = n["c"][0]
+        elif n["k"] in ("BinaryOperator", "CompoundAssignOperator") and n.get("op", "").endswith("=") and \
+                n["op"] not in ("==", "!=", "<=", ">="):
+            l = strip(n["c"][0])
+            if l["k"] == "DeclRefExpr":
+                multi.add(l.get("var"))
+        elif n["k"] == "UnaryOperator" and n.get("op") in ("++", "--", "&"):
+            l = strip(n["c"][0])
+            if l["k"] == "DeclRefExpr":
+                multi.add(l.get("var"))
+        elif n["k"] == "CXXOperatorCallExpr" and n.get("cname") in ("operator=", "operator+=", "operator++", "operator--") and len(n.get("c", [])) > 1:
+            l = strip(n["c"][1])
+            if l["k"] == "DeclRefExpr":
+                multi.add(l.get("var"))
+    f["_single"] = dict((v, e) for v, e in decl.items() if v not in multi)
+    return f["_single"]
+
+
+def inline_locals(f, e, depth=3):
+    """copy of expression e in which every read of a single-assignment scalar local of f is replaced by that local's
+    initialiser (transitively, up to `depth`): lets shape rules see through `const T x = ...;` without caring about it.
+    The copy is for matching and printing only (node ids repeat)."""
+    sa = single_assign(f)
+
+    def rec(n, d):
+        if not isinstance(n, dict):
+            return n
+        if n.get("k") == "DeclRefExpr" and n.get("var") in sa and d > 0 and not n.get("parm"):
+            t = ty(f, n) or {}
+            if t.get("k") in ("int", "bool", "enum", "ptr"):
+                return rec(sa[n["var"]], d - 1)
+        if "c" in n and n["c"]:
+            m = dict(n)
+            m["c"] = [rec(x, d) if x is not None else None for x in n["c"]]
+            return m
+        return n
+    return rec(e, depth)
+
+
 def extract_extra(db, name, text):
     """Analyse a synthetic translation unit (explicit template instantiations
     over the current tree's classes) and merge its entities into `db`."""
